@@ -370,6 +370,41 @@ def _root_copy(defs, l, body, depth=0):
     return l
 
 
+_SHRINK_OR_READ = {"len", "pop", "pop_back", "pop_front", "swap_remove", "remove", "truncate", "clear", "last", "first", "is_empty", "get", "index",
+                   "index_mut", "deref", "deref_mut", "as_slice", "iter", "contains", "last_mut", "first_mut", "get_mut", "as_mut_slice", "swap", "drain"}
+
+
+def _len_of_shrinking(fn, f, body, defs, lenvar):
+    """`lenvar` is `len()` of a collection on which the loop calls nothing that could make it longer"""
+    from ..mir import Flow, op_root
+    flow = Flow(fn)
+    colls = set()
+    for d in defs.get(lenvar, []):
+        if d.get("bi") not in body:
+            continue
+        if d["kind"] != "call" or d["term"].get("callee_name") != "len" or not d["term"]["args"]:
+            return False
+        r = op_root(d["term"]["args"][0])
+        if r is None:
+            return False
+        colls |= {(o[0], o[1]) for o in flow.origins(r, ()) if o[0] in ("arg", "call", "agg")}
+    if not colls:
+        return False
+    for b in body:
+        t = f["blocks"][b]["term"]
+        if t["k"] != "call" or not t["args"]:
+            continue
+        for a in t["args"]:
+            r = op_root(a)
+            if r is None:
+                continue
+            if {(o[0], o[1]) for o in flow.origins(r, ()) if o[0] in ("arg", "call", "agg")} & colls:
+                c = t.get("callee") or ""
+                if not (c.startswith(("alloc::vec::", "core::slice::", "alloc::collections::", "core::ops::", "core::option::", "core::iter::", "alloc::slice::", "core::cmp::", "core::clone::")) and t.get("callee_name") in _SHRINK_OR_READ | {"clone", "is_some_and", "eq", "ne"}):
+                    return False
+    return True
+
+
 def _counting_loop(fn, f, body, defs):
     """a loop left when an integer counter, changed by a non-zero constant in one direction on every trip, passes a bound that the loop
     does not change: `while i < n { ..; i += 1 }`"""
@@ -397,9 +432,13 @@ def _counting_loop(fn, f, body, defs):
                 if ops[ci][0] != "var":
                     continue
                 c = ops[ci][1]
-                # the bound: a constant, or a variable without definitions inside the loop
+                # the bound: a constant, a variable without definitions inside the loop, or the length of a collection that the loop
+                # only shrinks (`while pos < v.len() { .. v.pop() / v.swap_remove(..) ..; pos += 1 }`): an increasing counter passes it
+                shrinking_len = False
                 if ops[bi_][0] == "var" and any(d2.get("bi") in body for d2 in defs.get(ops[bi_][1], [])):
-                    continue
+                    shrinking_len = ci == 0 and rv.get("op") in ("Lt", "Le") and _len_of_shrinking(fn, f, body, defs, ops[bi_][1])
+                    if not shrinking_len:
+                        continue
                 if ops[bi_][0] == "?":
                     continue
                 # every in-loop definition of the counter is `c = (c +- k).0` / `c = c +- k` with k a non-zero constant, one direction
@@ -431,6 +470,8 @@ def _counting_loop(fn, f, body, defs):
                     up = src["op"].startswith("Add") == (b_["val"] > 0)
                     dirs.add("up" if up else "down")
                 if not ok or len(dirs) != 1:
+                    continue
+                if shrinking_len and dirs != {"up"}:
                     continue
                 # the update must lie on every cycle: its block dominates the back edge sources (approximated: it is in the body and
                 # the header dominates it - natural loop - and it post-dominates nothing else we can check cheaply); require that the
